@@ -16,3 +16,4 @@ def check(ctx):
                        "mechanised); that batch_size >= 1 whenever the loop condition holds.")
     facts = ctx.facts("E")
     jaeger.check_all(ctx, facts)
+    jaeger.rule_fresh_buffer(ctx, facts, "R1")
